@@ -4,6 +4,9 @@ mod cfgenc;
 mod enc;
 mod guard;
 mod irenc;
+mod irgen;
+mod domenc;
+mod pigen;
 mod pcodegen;
 mod penc;
 mod pblockgen;
